@@ -300,3 +300,5 @@ def _long(env, cfg):
 
 
 META['explanation'] += ' Further groups: per-call n_inner overrides, swapped / input-dependent label sets, memoising model, second explanation after a storage update, long reference runs from a fresh explainer.'
+
+META['explanation'] += ' Label alphabets include a mixed-type one ([1, 2, "unknown"]) and integer class labels.'
